@@ -79,7 +79,9 @@ def c14(tier, seed):
     obs += eo
     go, gcmd, glog, _ = units_verus.run_unit("gates")
     obs += go
-    cmd = cmd + " ; " + vcmd + " ; " + scmd + " ; " + rcmd + " ; " + ecmd + " ; " + gcmd
+    lo, lcmd, llog, _ = units_verus.run_unit("layout_tests")
+    obs += units_verus.select(lo, r"::field_offset_check::", r"^(post#2|safety)$")
+    cmd = cmd + " ; " + vcmd + " ; " + scmd + " ; " + rcmd + " ; " + ecmd + " ; " + gcmd + " ; " + lcmd
     prep = [prep] + [dict(l, unit="fn_abi") for l in vlog] + [dict(l, unit="var_string") for l in slog]
     meta = {
         "checker_cmd": cmd,
@@ -92,6 +94,7 @@ def c14(tier, seed):
             "bindgen/lib.rs: the feature-synchronisation / edition-validation expression of Builder::generate (Verus unit edition, block extracted by rule R18): unsupported edition -> BindgenError::UnsupportedEdition, otherwise RustFeatures::new(target, edition) / new_with_latest_edition(target)",
             "bindgen/codegen/helpers.rs: ast_ty::raw_type (Verus unit raw_type: ::core::ffi::X only when core_ffi_c)",
             "bindgen/codegen/mod.rs: the `let safety = ..` statements of <Var as CodeGenerator>::codegen and <Function as CodeGenerator>::codegen (Verus unit gates, let-statements extracted by rule R18): `unsafe extern` exactly when the target has unsafe_extern_blocks",
+            "bindgen/codegen/mod.rs: the `let compile_time = ..` statement of <CompInfo as CodeGenerator>::codegen (unit gates, R18): true only when the target has offset_of; and the per-member closure of the layout assertions (unit layout_tests, field_offset_check): the `offset_of!` spelling only in the compile_time form",
             "bindgen/codegen/mod.rs: the VarType::String arm of <Var as CodeGenerator>::codegen (Verus unit var_string: block extracted by rule R18; each token template is an env constructor recording the gated feature its text uses) + BindgenContext::trait_prefix",
         ],
         "extraction": [{"mode": "path", "file": "bindgen/features.rs", "rewrites": 0}] + prep,
@@ -100,7 +103,7 @@ def c14(tier, seed):
             "RustTarget::from_str and RustTarget::default() (rustc --version probing) are not under contract",
         ],
         "unverified": [
-            "that the remaining code-generation sites consult their flag (codegen/mod.rs ptr_metadata / layout_for_ptr of the flexible-array helpers; offset_of is read by the layout-assertion units of C06): FunctionSig::abi, raw_type, the string-constant arm and the two `unsafe extern` sites are under contract",
+            "that the remaining code-generation sites consult their flag (codegen/mod.rs ptr_metadata / layout_for_ptr of the flexible-array helpers): FunctionSig::abi, raw_type, the string-constant arm and the two `unsafe extern` sites are under contract",
             "RustTarget::default() (rustc --version probing)",
         ],
     }
